@@ -10,7 +10,7 @@
 (* discipline), C20 (no residue, live store kept).                         *)
 (*                                                                         *)
 (* pc of the loader = name of the last completed step = hook site:         *)
-(*   idle -> tmp -> [info] -> fetched -> staged -> parsed -> verified ->   *)
+(*   idle -> tmp -> [info] -> fetching -> fetched -> staged -> parsed -> verified ->   *)
 (*   locked -> closedOld -> closedNew -> movedAside -> movedIn ->          *)
 (*   removedOld -> reopened   (memory: locked -> replaced)                 *)
 (*   -> unlocked -> idle ;  any failure: -> failed -> idle                 *)
@@ -88,7 +88,12 @@ LStart == /\ up /\ lpc = "idle" /\ runs < MaxRuns /\ runs' = runs + 1
 LInfo == /\ up /\ lpc = "tmp" /\ kind = "refresh" /\ wlock = "none" /\ L("info")
          /\ Same(<<origin, final, liveDoc, stage, aside, tmpfile, loaded, wlock, kind, cursor, fetched, runs, up>>) /\ UNCHANGED Ghosts /\ UNCHANGED RdVars
          /\ Emit(<<"info">>)
-LFetch == /\ up /\ ((lpc = "tmp" /\ kind = "first") \/ lpc = "info")
+\* the transfer is under way: the download file holds a prefix of the body (a crash point of its own; an origin that is down
+\* fails the fetch without reaching it)
+LFetchBegin == /\ up /\ ((lpc = "tmp" /\ kind = "first") \/ lpc = "info") /\ origin.kind # "down" /\ L("fetching")
+               /\ Same(<<origin, final, liveDoc, stage, aside, tmpfile, loaded, wlock, kind, cursor, fetched, runs, up>>) /\ UNCHANGED Ghosts /\ UNCHANGED RdVars
+               /\ Emit(<<"fetchBegin">>)
+LFetch == /\ up /\ (IF origin.kind = "down" THEN ((lpc = "tmp" /\ kind = "first") \/ lpc = "info") ELSE lpc = "fetching")
           /\ IF origin.kind = "down" THEN L("failed") /\ fetched' = NoFetch ELSE L("fetched") /\ fetched' = origin
           /\ Same(<<origin, final, liveDoc, stage, aside, tmpfile, loaded, wlock, kind, cursor, runs, up>>) /\ UNCHANGED Ghosts /\ UNCHANGED RdVars
           /\ Emit(<<"fetch">>)
@@ -179,7 +184,7 @@ Restart == /\ ~up /\ up' = TRUE
            /\ Same(<<origin, wlock, rlock, lpc, kind, rpc, cursor, fetched, runs>>) /\ UNCHANGED Ghosts
            /\ Emit(<<"restart">>)
 
-Next == Publish \/ LStart \/ LInfo \/ LFetch \/ LStage \/ LParse \/ LVerify \/ LLock \/ LMapSwap \/ LCloseOld \/ LCloseNew \/ LMvAside
+Next == Publish \/ LStart \/ LInfo \/ LFetchBegin \/ LFetch \/ LStage \/ LParse \/ LVerify \/ LLock \/ LMapSwap \/ LCloseOld \/ LCloseNew \/ LMvAside
         \/ LMvNew \/ LRmOld \/ LReopen \/ LUnlock \/ LFail \/ LDone \/ Crash \/ Restart
         \/ \E r \in Readers : RBegin(r) \/ RLookup(r) \/ REnd(r)
 Spec == Init /\ [][Next]_vars
@@ -202,5 +207,5 @@ LiveKept  == (up /\ loaded /\ lpc \notin {"movedAside"}) => final.exists
 CrashSafe == (up /\ loaded /\ wlock = "none") => (final.exists /\ final.meta /\ liveDoc.some /\ final.keys = liveDoc.keys)
 \* C12: only accepted documents ever reach the final directory
 OnlyAccepted == final.meta => liveDoc.some
-TypeOK == lpc \in {"idle", "tmp", "info", "fetched", "staged", "parsed", "verified", "locked", "closedOld", "closedNew", "movedAside", "movedIn", "removedOld", "reopened", "replaced", "unlocked", "failed", "done"}
+TypeOK == lpc \in {"idle", "tmp", "info", "fetching", "fetched", "staged", "parsed", "verified", "locked", "closedOld", "closedNew", "movedAside", "movedIn", "removedOld", "reopened", "replaced", "unlocked", "failed", "done"}
 =============================================================================
